@@ -1,6 +1,22 @@
 import SigpyVerif.Model.Py
 import SigpyVerif.Model.Proto
+import SigpyVerif.Model.C02
+import SigpyVerif.Gen.Effects
 namespace SigpyVerif.Drv.C02
-/-- protocol handler for property C02 (tokens after the property id). -/
-def handle (_toks : List String) : String := "err bad-op"
+open SigpyVerif SigpyVerif.Proto SigpyVerif.C02
+
+/-- protocol handler for property C02 (tokens after the property id).
+    `summary <name>`  → `ok ok=<0|1> clean=<0|1> mut=<origins> ret=<origins>`: the result of the Lean
+                         points-to analysis on the generated program of that function
+    `list`            → names of all generated programs
+    `untranslated`    → number of functions outside the translator's subset -/
+def handle (toks : List String) : String :=
+  match toks with
+  | ["summary", name] =>
+    match Gen.Effects.effectTable.find? (fun p => p.1 == name) with
+    | some (_, f) => "ok " ++ f ()
+    | none => "err unknown-function"
+  | ["list"] => "ok " ++ ",".intercalate (Gen.Effects.effectTable.map (·.1))
+  | ["untranslated"] => s!"ok {Gen.Effects.untranslated.length}"
+  | _ => "err bad-op"
 end SigpyVerif.Drv.C02
